@@ -7,6 +7,7 @@ from terms import D
 import framework
 import pde
 from pde import X, Y, Z, TT
+from exec import ExecError
 
 SOLS = {'euler_1d': 1, 'euler_2d': 2, 'euler_3d': 3, 'navierstokes_2d_compressible': 2, 'navierstokes_3d_compressible': 3}
 I = tm.sym('i', 'I')
@@ -47,6 +48,22 @@ def api_replay(chk, view, api, args, libterm, ref, ivalue=None):
     return replay
 
 
+def fatal_replay(chk, view, api, ncoords, dim):
+    """the gradient entry point called in a process that initialised only this precision's registry must return (not end the process)"""
+    def replay(ob, model):
+        import replay as rp
+        cxx = rp.SCALAR_CXX[view.scalar]
+        call = '%s<Scalar>(%s%s)' % (api, ', '.join(['(Scalar)0.375'] * ncoords), ', 1' if dim > 1 else '')
+        src = ('#include <masa.h>\n#include <cstdio>\nusing namespace MASA;\ntypedef %s Scalar;\nint main(){\n masa_init<Scalar>("h","%s");\n'
+               ' Scalar g = %s;\n printf("\\nR returned %%d\\n", g == g);\n return 0;}\n') % (cxx, view.name, call)
+        rc, out, err = chk.lib().run(src)
+        if rc != 0 or 'R returned 1' not in out:
+            path = chk.save_replay(ob, dict(obligation=ob.name, stdout=out[-1500:], rc=rc), src)
+            return dict(reproduced=True, path=path, detail='%s<%s> %s after masa_init: rc=%s, output %r' % (view.name, view.scalar, api, rc, out[-160:]))
+        return dict(reproduced=False, path=None, detail='real library returns')
+    return replay
+
+
 def body(chk):
     w = chk.world()
     chk.assumptions += ['real-arithmetic model of FP (formula layer)', 'sin/cos abstracted to points on the unit circle (sound)',
@@ -70,7 +87,13 @@ def body(chk):
                 if not provided:
                     continue     # no exact field -> gradient not provided either (fail-safe behaviour is C15)
                 exact = pde.merge_paths(ex_paths)
-                g = v.term(api, args)
+                try:
+                    g = v.term(api, args)
+                except ExecError as e_:
+                    # a documented gradient that ends the process / fails although its solution is initialised and selected
+                    chk.paths_clean('%s<%s>:%s:returns-for-the-selected-solution' % (name, scalar, api), [tm.TRUE], key='%s:%s:returns' % (name, api),
+                                    sample=dict(obligation=api, outcome=str(e_)[:300]), replay=fatal_replay(chk, v, api, len(coords), dim))
+                    continue
                 paths = v.terms[(api, tuple(a.id for a in args))][1]
                 if any(any(e[0] == 'cout' and isinstance(e[1], str) and 'MASA ERROR' in e[1] for e in p['st'].events) for p in paths) and dim == 1:
                     continue
